@@ -3,7 +3,7 @@ from ..ir import AnalysisBroken, strip_targs, qmatch
 from ..graph import Graph
 from ..expr import access_path, path_str, held_locks, reaching_defs, norm_cond, origins, leaves, defs_in_node
 from ..charclass import describe, CTYPE
-from .common import strip_casts, short, comparison, member_funcs, subtree_through_locals
+from .common import strip_casts, short, comparison, member_funcs, subtree_through_locals, gated_by
 from . import c06
 
 UNITS = ['sdk/src/metrics/instrument_metadata_validator.cc', 'sdk/src/metrics/meter.cc', 'sdk/src/trace/tracer.cc',
@@ -104,7 +104,15 @@ def rule_r2(ck, prog, rule='C19.R2'):
                 ids = [strip_casts(f, x).get('id') for x in cn.get('args', [])]
                 return ids == [p['id'] for p in f.params[:3]] and (lab[2] if pol else not lab[2]) is True
             return False
-        ok = bool(regs) and all(g.must_pass_edge(p, en) and g.must_pass_edge(p, va) for p in regs)
+        # decided by pinning: with IsEnabled() (resp. ValidateInstrument(name, description, unit)) pinned to false no registration is
+        # reachable - named results, combined guards and rewritten branches are folded by the path explorer
+        def is_en(ff, cn):
+            return strip_targs(cn.get('c', '')).endswith('MeterConfig::IsEnabled')
+
+        def is_va(ff, cn):
+            return strip_targs(cn.get('c', '')).endswith('Meter::ValidateInstrument') and \
+                [strip_casts(ff, x).get('id') for x in cn.get('args', [])] == [p['id'] for p in f.params[:3]]
+        ok = bool(regs) and gated_by(g, regs, is_en)[0] and gated_by(g, regs, is_va)[0]
         ck.verdict(ok, rule, f, 'gates:%s' % f.name, regs[0].n if regs else None, 'registration behind enabled and ValidateInstrument(name, description, unit)' if ok else
                    '%s can register a metric stream without the scope being enabled and ValidateInstrument(name, description, unit) having accepted it' % f.name)
         enums = [n.get('qn', '').rsplit('::', 1)[-1] for n in f.nodes if n['k'] == 'ref' and n.get('sk') == 'enum' and ('InstrumentType::' in (n.get('qn') or '') or 'InstrumentValueType::' in (n.get('qn') or ''))]
@@ -124,7 +132,7 @@ def rule_r2(ck, prog, rule='C19.R2'):
             core, pol = norm_cond(lab[1], lab[0])
             cn = lab[1].nodes[core]
             return cn['k'] == 'call' and strip_targs(cn.get('c', '')).endswith(_cfg) and (lab[2] if pol else not lab[2]) is True
-        ok = bool(eff) and all(g.must_pass_edge(p, en2) for p in eff)
+        ok = bool(eff) and gated_by(g, eff, lambda ff, cn, _cfg=cfg: strip_targs(cn.get('c', '')).endswith(_cfg))[0]
         ck.verdict(ok, rule, f, 'enabled-gate', eff[0].n if eff else None, 'behind the enabled test' if ok else '%s produces telemetry for a disabled scope' % short(f))
 
 
